@@ -46,6 +46,13 @@ func c06Scenarios() []*core.Scenario {
 		{Name: "S8 sealing append then head truncation while the rotation is pending || GetLog(kept), FirstIndex", Cfg: seg,
 			Setup:   []core.Op{a(1, 0, 4), a(2, 0, 4)},
 			Threads: []core.ThreadSpec{{Name: "writer", Ops: []core.Op{a(3, 0, 4), {K: "D", Min: 1, Max: 1}}}, {Name: "reader", Ops: []core.Op{{K: "GL", Idx: 3}, {K: "FI"}}}}},
+		{Name: "S9 head truncation ending one below a sealed segment's last index || GetLog(that index), FirstIndex, GetLog(next segment)", Cfg: seg,
+			Setup:   []core.Op{a(1, 0, 4), a(2, 0, 4), a(3, 0, 4), a(4, 0, 4)},
+			Threads: []core.ThreadSpec{{Name: "writer", Ops: []core.Op{{K: "D", Min: 1, Max: 2}}}, {Name: "reader", Ops: []core.Op{{K: "GL", Idx: 3}, {K: "FI"}, {K: "GL", Idx: 4}}}}},
+		{Name: "S10 two readers of entries larger than the pooled read buffer || append", Cfg: core.Config{SegSize: 1 << 20},
+			Setup: []core.Op{a(1, 0, 70000), a(2, 0, 66000), a(3, 0, 12)},
+			Threads: []core.ThreadSpec{{Name: "reader1", Ops: []core.Op{{K: "GL", Idx: 1}}}, {Name: "reader2", Ops: []core.Op{{K: "GL", Idx: 2}, {K: "GL", Idx: 3}}},
+				{Name: "writer", Ops: []core.Op{a(4, 0, 4)}}}},
 		{Name: "S6 head truncation inside the tail || GetLog(deleted), FirstIndex", Cfg: core.Config{SegSize: 4096},
 			Setup:   []core.Op{a(1, 0, 4), a(2, 0, 4), a(3, 0, 4)},
 			Threads: []core.ThreadSpec{{Name: "writer", Ops: []core.Op{{K: "D", Min: 1, Max: 2}, a(4, 0, 4)}}, {Name: "reader", Ops: []core.Op{{K: "GL", Idx: 1}, {K: "FI"}, {K: "GL", Idx: 4}}}}},
@@ -94,6 +101,12 @@ func c08Scenarios() []*core.Scenario {
 		{Name: "Set(k1), Get(k1) || Set(k1 other value), Get(k2)", Cfg: seg, Prop: "C08",
 			Threads: []core.ThreadSpec{{Name: "stable1", Ops: []core.Op{{K: "S", Key: "k1", Val: []byte("aaaa")}, {K: "G", Key: "k1"}}},
 				{Name: "stable2", Ops: []core.Op{{K: "S", Key: "k2", Val: []byte("bbbbbbbb")}, {K: "G", Key: "k2"}}}}},
+		{Name: "Get(k1), Get(k1) || Set(k1), Get(k1), Set(k1 again), Get(k1)", Cfg: seg, Prop: "C08", Setup: []core.Op{{K: "S", Key: "k1", Val: []byte("old")}},
+			Threads: []core.ThreadSpec{{Name: "getter", Ops: []core.Op{{K: "G", Key: "k1"}, {K: "G", Key: "k1"}}},
+				{Name: "setter", Ops: []core.Op{{K: "S", Key: "k1", Val: []byte("new1")}, {K: "G", Key: "k1"}, {K: "S", Key: "k1", Val: []byte("new22")}, {K: "G", Key: "k1"}}}}},
+		{Name: "GetUint64(k2) || SetUint64(k2), GetUint64(k2) || GetUint64(k2)", Cfg: seg, Prop: "C08",
+			Threads: []core.ThreadSpec{{Name: "getter1", Ops: []core.Op{{K: "GU", Key: "k2"}, {K: "GU", Key: "k2"}}},
+				{Name: "setter", Ops: []core.Op{{K: "U", Key: "k2", U64: 5}, {K: "GU", Key: "k2"}}}, {Name: "getter2", Ops: []core.Op{{K: "GU", Key: "k2"}}}}},
 		{Name: "Set(nil), Get || tail truncation and re-append || reader", Cfg: seg, Prop: "C08", Setup: []core.Op{a(1, 0, 4), a(2, 0, 4), {K: "S", Key: "k1", Val: []byte("old")}},
 			Threads: []core.ThreadSpec{{Name: "stable", Ops: []core.Op{{K: "S", Key: "k1", Nil: true}, {K: "G", Key: "k1"}}},
 				{Name: "writer", Ops: []core.Op{{K: "D", Min: 2, Max: 2}, a(2, 1, 12)}}, {Name: "reader", Ops: []core.Op{{K: "GL", Idx: 2}, {K: "LI"}}}}},
@@ -142,6 +155,13 @@ func runSched(prop string) *ShardResult {
 		scs = c08Scenarios()
 	case "C12":
 		scs = c12Scenarios()
+	case "C15":
+		// the same large-entry readers: an entry above the pooled buffer size must read back whole
+		// whatever other readers do meanwhile
+		scs = c12Scenarios()
+		for _, s := range scs {
+			s.Prop = "C15"
+		}
 	default:
 		scs = c14Scenarios()
 	}
